@@ -317,9 +317,14 @@ func (l *specLexer) parseUnary() (*Spec, error) {
 				return nil, err
 			}
 			q.B, q.C = lo, hi
-		} else if nt.k == "id" {
+		} else if nt.k == "id" || (nt.k == "op" && nt.s == "*") {
+			if nt.k == "op" {
+				l.next()
+				q.TypeName = "*"
+				nt = l.peek()
+			}
 			l.next()
-			q.TypeName = nt.s
+			q.TypeName += nt.s
 			for l.isOp(".") {
 				l.next()
 				q.TypeName += "." + l.next().s
